@@ -199,14 +199,47 @@ def runOp (su : Setup) (w : WState World) : HOp → Except String (WState World 
     let c := sched.foldl (runItem su.cfg) { rs := w.rs, world := w.src, ts }
     pure ({ w with rs := c.rs, src := c.world }, c.ts.map threadOut)
 
-def runOps (su : Setup) (ops : List HOp) : Except String (List MRec) := do
+/-- `adopt`: the implementation's `suppressed_until` after construction and after each op.  When given,
+    the model takes the window the implementation chose (the spec bounds it: `specBackoff`) instead of
+    computing its own – the model as a monitor that leaves the back-off schedule open – and records
+    whether model and implementation agree on *which* ops registered an error. -/
+def runOps (su : Setup) (ops : List HOp) (adopt : Option (Array Int) := none) : Except String (List MRec × Bool) := do
   let mut w := winit worldSource su.cfg su.initialLoad su.asyncEtag su.now0 su.policy0 su.world0
   let mut acc : Array MRec := #[{ results := [], rs := w.rs, now := w.now, world := w.src }]
+  let mut sameFailures := true
+  let mut i := 0
   for op in ops do
-    let (w', outs) ← runOp su w op
+    let before := w.rs.suppressUntil
+    let (w', outs) ←
+      match adopt with
+      | none => runOp su w op
+      | some _ =>
+        -- exactness of the jitter is irrelevant when the window is adopted
+        (match op with
+         | .check c mid _ =>
+           let r := wcheck worldSource su.cfg c.force (fun _ => 0) (fun x => x.applyAll mid) w
+           pure (r.1, [r.2])
+         | .conc checks sched =>
+           let ts : List Thread := checks.map fun c =>
+             { force := c.force, now := w.now, jit := fun _ => 0, pc := .start, touched := false }
+           let c := sched.foldl (runItem su.cfg) { rs := w.rs, world := w.src, ts }
+           pure ({ w with rs := c.rs, src := c.world }, c.ts.map threadOut)
+         | _ => runOp su w op)
     w := w'
+    match adopt with
+    | some a =>
+      let implBefore := a[i]?.getD before
+      let implAfter := a[i+1]?.getD w.rs.suppressUntil
+      -- the implementation may move the window only in a check that failed (a single check: the model
+      -- then has `_last_error` set; overlapping checks: a later publish may have cleared it again)
+      let isSingle := match op with | .check _ _ _ => true | _ => false
+      let isConc := match op with | .conc _ _ => true | _ => false
+      if implAfter != implBefore && !isConc && !(isSingle && w.rs.lastErrorSet) then sameFailures := false
+      w := { w with rs := { w.rs with suppressUntil := implAfter } }
+    | none => pure ()
     acc := acc.push { results := outs, rs := w.rs, now := w.now, world := w.src }
-  pure acc.toList
+    i := i + 1
+  pure (acc.toList, sameFailures)
 
 def encOut : Out → Json
   | .returned b => .bool b
@@ -366,12 +399,17 @@ def encSpec (s : SpecOut) (conv : Json) : Json :=
 def reloadOps (j : Json) : Except String Json := do
   let ops ← (fieldArr j "history").mapM decHOp
   let su ← decSetup j false
-  let cached ← runOps su ops
-  let remote : Option (List MRec) ←
+  let adopt : Option (Array Int) :=
+    match (j.getObjVal? "adopt").toOption with
+    | some (.arr a) => some (a.map fun x => match x.getInt? with | .ok n => n | .error _ => 0)
+    | _ => none
+  let (cached, sameC) ← runOps su ops adopt
+  let remoteR : Option (List MRec × Bool) ←
     if su.isHttp then do
       let su' ← decSetup j true
-      pure (some (← runOps su' ops))
+      pure (some (← runOps su' ops adopt))
     else pure none
+  let remote := remoteR.map (·.1)
   let spec : Json ←
     match (j.getObjVal? "impl").toOption with
     | some (.arr a) => do
@@ -384,6 +422,8 @@ def reloadOps (j : Json) : Except String Json := do
     evalConverge su ops tr impl
   pure (Json.mkObj [("model", .arr (cached.map encRec).toArray),
     ("model_remote", match remote with | some r => .arr (r.map encRec).toArray | none => .null),
+    ("same_failures", .bool sameC),
+    ("same_failures_remote", match remoteR with | some r => .bool r.2 | none => .null),
     ("converge_model", selfSpec cached),
     ("converge_model_remote", match remote with | some r => selfSpec r | none => .null),
     ("spec", spec)])
